@@ -323,7 +323,7 @@ def run(ck: Check):
     ck.extra["role_A"] = ("Compress: Lossless, NoError, CompressInv hold for all shape lists and selections within "
                           "the bounds of the A configs (1 Einsum: <= 3 sub-tables x 0..3 rows, <= %d result rows; "
                           "2 Einsums: <= 2 x 0..2, <= %d result rows%s)"
-                          % ((3, 2, "; 3 Einsums: <= 2 x 0..2, 1 result row") if thorough else (2, 1, "")))
+                          % ((3, 2, "; 3 Einsums: <= 2 x 0..1, 1 result row") if thorough else (2, 1, "")))
     if thorough:
         negs = []
         for cfg in ("Compress_neg_key.cfg", "Compress_neg_walk.cfg"):
@@ -338,7 +338,7 @@ def run(ck: Check):
     # ---- binding B
     if thorough:
         plan = [("MC_Compress_exht1.cfg", None), ("MC_Compress_exht2.cfg", None)]
-        plan += [("MC_Compress_rand.cfg", ck.seed * 100 + i) for i in range(6)]
+        plan += [("MC_Compress_rand.cfg", ck.seed * 100 + i) for i in range(4)]
     else:
         plan = [("MC_Compress_exhq.cfg", None), ("MC_Compress_rand.cfg", ck.seed * 100)]
     for cfg, seed in plan:
